@@ -12,6 +12,11 @@ State space (DESIGN section 4, C03): compounds x density forms x wavelength form
   wavelength {0.05, 0.5, 1, 1.798, 4.75, 10, 50} plus, for every table-driven atom of the compound, every
              table node, every midpoint and one point beyond each end (thorough: also quarter points);
              each also as energy=; scalar and vectors of length 1, 2, 5 and the whole grid
+  keywords   energy= TOGETHER WITH wavelength= in one call ("If energy is specified then wavelength is ignored"): the
+  combined   reference wavelength is the one of the energy; wavelength= is another point of the same grid (entrywise
+             different; for table-driven atoms far away in the table) or the wavelength of the energy itself; scalars
+             and vectors (same shape and length); neutron_scattering and neutron_sld; every atom, ion, pair; compounds
+             without data; as configurations of the histories (energy buffer + a second wavelength buffer)
   histories  the caller keeps ONE compound object (a Formula with its own density / a fragment list / an atom) and
              ONE wavelength buffer (numpy array / list; also a scalar) and calls twice: all ordered pairs of call configurations
              (density of the Formula assigned in place | density= | natural_density=) x (two wavelength vectors,
@@ -45,6 +50,9 @@ META = dict(
     rule=("a case is (route, compound, construction form, density form, wavelength form); cases are distinct by "
           "construction (every atom of the table once; every unordered pair of the class alphabet with every count "
           "pair; every table node / midpoint / outside point of every table-driven atom); a history case is "
+          "energy= and wavelength= passed together form cases of their own: (energies of the grid points / vectors) x "
+          "(wavelength= the same points | entrywise other points of the grid), judged at the wavelength of the energy "
+          "as the documentation of neutron_scattering / neutron_sld prescribes; a history case is "
           "(compound, kind of compound object, kind of wavelength buffer, ordered pair of call configurations) "
           "executed on the same caller-owned objects, the buffer refilled and the Formula's density assigned in place "
           "between the calls; a table history is a sequence of events (first use of the public table, creation + "
@@ -56,9 +64,15 @@ META = dict(
         quick="all atoms with data + all ions of 12 elements + 7 isotope ions; all pairs over the 32-atom class "
               "alphabet x 9 count pairs; 4 densities x 4 density forms (natural density also for ions and isotope "
               "ions); 7 global wavelengths + all nodes/midpoints/outside points of the energy tables; wavelength= and "
-              "energy=; scalar and vectors of length 1, 2, 5, full grid; histories: all ordered pairs of 16+4 (Formula, with its own "
+              "energy=; scalar and vectors of length 1, 2, 5, full grid; energy= with wavelength= (same | other point): for "
+              "every atom and ion every grid point as a scalar and every vector with density= (4 densities, list form) and "
+              "at the atom's own density (atom form), every vector / the whole grid in the other forms (strings, natural "
+              "density, neutron_sld); for every pair x count pair all 7 global points as scalars, the 4 vectors and the whole "
+              "node grid with density=1, one scalar + one vector with natural_density=, '@d', '@dn', the whole grid through "
+              "neutron_sld; histories: all ordered pairs of 16+2+4 (Formula, with its own "
               "neutron_sld method), "
-              "12 (list), 12+4 (atom, with the direct queries) configurations x {array, list, scalar} wavelength arguments for the 32+6 "
+              "12+2 (list), 12+2+4 (atom, with the direct queries) configurations (+2 = energy buffer with a second "
+              "wavelength buffer) x {array, list, scalar} wavelength arguments for the 32+6 "
               "one-atom compounds and the 36 pairs over the 9-atom sub-alphabet; table histories: 312 histories "
               "(public table used before / not before the first private table) x (6 customisations of table 1) x (alone | "
               "edited | x 6 customisations of table 2 x (plain | table 1 edited before | table 1 edited after | table 2 "
@@ -92,6 +106,16 @@ META = dict(
         "elements of THAT table are not judged; all other atoms of all tables still are",
         "history cases use vectors of length 3 and scalars; compound strings are immutable and their repeated use is "
         "covered by the order of the plain cases only",
+        "keywords in combination: energy= with wavelength= is judged for neutron_scattering and neutron_sld, whose "
+        "documentation states the precedence ('If energy is specified then wavelength is ignored'), with both values of "
+        "the same shape and length (the note 'the returned values will be vectors if wavelength is a vector' leaves the "
+        "shape open when a scalar energy meets a wavelength vector).  The deprecated Formula.neutron_sld method documents "
+        "only wavelength= and is called with wavelength= only; atom.neutron.scattering / .sld have no energy parameter.  "
+        "density= together with natural_density= is NOT judged: no docstring (neutron_scattering, neutron_sld, formula) "
+        "says which of the two wins",
+        "positional passing: every parameter of neutron_scattering / neutron_sld / atom.neutron.scattering / .sld / "
+        "Formula.neutron_sld except the compound is keyword-only by design (util.require_keywords raises TypeError for a "
+        "positional density or wavelength), so there is no positional form to compare; the compound is always positional",
     ],
     level_text="bounded-exhaustive: complete over the atoms of the table and over the nodes of the energy tables, "
                "bounded (pairs / triples over a class alphabet) for compounds, grid for the real parameters",
@@ -274,67 +298,116 @@ class Checker(object):
     # ---- one case
     def case(self, route, frags, form, dspec, wspec):
         """Execute one case against the library and compare with the reference.
-        wspec = (how, values, shape): how in 'wl' | 'en' | 'default'; values list of wavelengths in
-        Angstrom (the reference wavelengths; for 'en' the energies passed are ref conversions of them);
-        shape in 'scalar' | 'vector'."""
+        wspec = (how, values, shape[, given]): how in 'wl' | 'en' | 'both' | 'default'; values list of wavelengths in
+        Angstrom (the reference wavelengths; for 'en' and 'both' the energies passed are ref conversions of them);
+        shape in 'scalar' | 'vector'; 'both': energy= AND wavelength= are passed, wavelength=given (same shape and
+        length) - the documentation says it is ignored, so the reference wavelengths stay `values`."""
         acc = self.acc
         frags = norm_frags(frags)
-        how, wls, shape = wspec
+        how, wls, shape = wspec[0], wspec[1], wspec[2]
         wls = [float(w) for w in wls]
+        given = None
+        if how == "both":
+            given = [float(w) for w in wspec[3]]
+            if len(given) != len(wls):
+                raise MachineryError("energy and wavelength of different length are not in the alphabet")
         case = dict(route=route, frags=[[c, list(k)] for c, k in frags], form=form, dens=list(dspec),
-                    w=[how, wls, shape])
+                    w=[how, wls, shape] + ([given] if given is not None else []))
         has_table = bool(self.table_atoms(frags))
         cls = "table" if has_table else "const"
+
+        def beam_arg(vals):
+            return (np.array(vals, dtype=float) if shape == "vector" else vals[0],
+                    ("np.array(%r)" % (vals,)) if shape == "vector" else repr(vals[0]))
         # arguments
+        wkw, wsrc = {}, []
         if how == "default":
-            wkw, wsrc = {}, []
             wls = [rn.ABS_WL]
         else:
-            vals = wls if how == "wl" else [rn.energy_of_wavelength(w) for w in wls]
-            arg = np.array(vals, dtype=float) if shape == "vector" else vals[0]
-            name = "wavelength" if how == "wl" else "energy"
-            wkw = {name: arg}
-            wsrc = ["%s=%s" % (name, ("np.array(%r)" % (vals,)) if shape == "vector" else repr(vals[0]))]
-        try:
-            if route in ("direct", "direct_sld"):
-                at = lib_atom(self.pt, frags[0][1])
-                meth = at.neutron.scattering if route == "direct" else at.neutron.sld
-                src = "%s.neutron.%s(%s)" % (atom_py(frags[0][1]), "scattering" if route == "direct" else "sld",
-                                             ", ".join(wsrc))
-                if how == "en":
-                    raise MachineryError("direct route has no energy argument")
-                call = lambda: meth(**wkw)
-            else:
-                comp, kw, csrc, ksrc = self.build_compound(frags, form, dspec)
-                fn = self.pt.neutron_scattering if route == "compound" else self.pt.neutron_sld
-                src = "pt.%s(%s)" % ("neutron_scattering" if route == "compound" else "neutron_sld",
-                                     ", ".join([csrc] + ksrc + wsrc))
-                kw.update(wkw)
-                call = lambda: fn(comp, **kw)
-        except MachineryError:
-            raise
+            if how in ("wl", "both"):
+                arg, asrc = beam_arg(wls if how == "wl" else given)
+                wkw["wavelength"] = arg
+                wsrc.append("wavelength=%s" % asrc)
+            if how in ("en", "both"):
+                arg, asrc = beam_arg([rn.energy_of_wavelength(w) for w in wls])
+                wkw["energy"] = arg
+                wsrc.append("energy=%s" % asrc)
+        control = None               # the same call with energy= alone (only used to name the cause of a failure)
+        if route in ("direct", "direct_sld"):
+            at = lib_atom(self.pt, frags[0][1])
+            meth = at.neutron.scattering if route == "direct" else at.neutron.sld
+            if how in ("en", "both"):
+                raise MachineryError("direct route has no energy argument")
+            call = lambda: meth(**wkw)
+            src = "%s.neutron.%s(%s)" % (atom_py(frags[0][1]), "scattering" if route == "direct" else "sld",
+                                         ", ".join(wsrc))
+        else:
+            comp, kw, csrc, ksrc = self.build_compound(frags, form, dspec)
+            fn = self.pt.neutron_scattering if route == "compound" else self.pt.neutron_sld
+            kw.update(wkw)
+            call = lambda: fn(comp, **kw)
+            if how == "both":
+                kw_en = dict((k, v) for k, v in kw.items() if k != "wavelength")
+                control = lambda: fn(comp, **kw_en)
+            src = "pt.%s(%s)" % ("neutron_scattering" if route == "compound" else "neutron_sld",
+                                 ", ".join([csrc] + ksrc + wsrc))
         standalone = "import numpy as np\nimport periodictable as pt\nprint(%s)\n" % src
         if acc.states % 40009 == 7:
             acc.sample(dict(case, call=src))
         acc.states += 1
         acc.evaluations += 1
         acc.transitions += 1
+        label = how if how != "both" else ("en+wl(same)" if given == wls else "en+wl(other)")
         try:
             with np.errstate(all="ignore"):
                 got = call()
         except Exception as e:
-            acc.violation("raises:%s:%s:%s" % (type(e).__name__, route, cls), case, "seven values",
-                          "%s: %s" % (type(e).__name__, e), standalone=standalone)
+            fail = dict(sig="raises:%s:%s:%s" % (type(e).__name__, route, cls), expected="seven values",
+                        observed="%s: %s" % (type(e).__name__, e))
+            fail = self.refine_combination(fail, None, control, route, frags, dspec, wls, given, shape, cls)
+            acc.violation(fail["sig"], case, fail["expected"], fail["observed"], standalone=standalone)
             return False
-        fail = self.judge(got, route, frags, dspec, wls, shape, how)
+        fail = self.judge(got, route, frags, dspec, wls, shape, label)
         if fail is None:
             return True
         fail = self.refine_natural(fail, route, frags, dspec, wls)
+        fail = self.refine_combination(fail, got, control, route, frags, dspec, wls, given, shape, cls)
         if "failing_index" in fail:
             case["failing_index"] = fail["failing_index"]
         acc.violation(fail["sig"], case, fail["expected"], fail["observed"], standalone=standalone,
                       detail=fail.get("detail"))
         return False
+
+    def refine_combination(self, fail, got, control, route, frags, dspec, wls, given, shape, cls):
+        """A failing case that passes energy= together with wavelength=: if the same call with energy= alone
+        (`control`) agrees with the reference, the cause is the combination, and the signature says so - and whether
+        the result is the one of the wavelength that the documentation says is ignored."""
+        if control is None:
+            return fail
+        try:
+            self.acc.evaluations += 1
+            with np.errstate(all="ignore"):
+                alone = control()
+            if self.judge(alone, route, frags, dspec, wls, shape, "control", count=False) is not None:
+                return fail
+        except MachineryError:
+            raise
+        except Exception:
+            return fail
+        if fail["sig"].startswith("raises:"):
+            return dict(fail, sig="energy-and-wavelength-given:%s" % fail["sig"])
+        return dict(fail, sig="energy-and-wavelength-given:%s:%s" % (self.both_kind(got, route, frags, dspec, wls, given,
+                                                                                      shape), cls))
+
+    def both_kind(self, got, route, frags, dspec, wls, given, shape):
+        """how a result for energy= and wavelength= in one call is wrong: it is the result of the wavelength that
+        should have been ignored, or something else"""
+        try:
+            if given != wls and self.judge(got, route, frags, dspec, given, shape, "control", count=False) is None:
+                return "wavelength-not-ignored"
+        except Exception:
+            pass
+        return "differs-from-energy-alone"
 
     def refine_natural(self, fail, route, frags, dspec, wls):
         """A failing case whose density was given as natural density: if the same compound with the equivalent
@@ -489,6 +562,8 @@ class Checker(object):
         else:
             raise MachineryError("form %r" % form)
         cfgs = [("compound", d, vi, how) for d in dens for vi in (0, 1) for how in ("wl", "en")]
+        # energy= (the shared buffer) together with wavelength= (a second caller-owned buffer holding the OTHER vector)
+        cfgs += [("compound", dens[0], vi, "both") for vi in (0, 1)]
         if form == "formula":
             # the Formula's own method (periodictable.neutron_sld on its atoms and density)
             cfgs += [("method_sld", d, vi, "wl") for d in dens[:2] for vi in (0, 1)]
@@ -511,7 +586,7 @@ class Checker(object):
         return out
 
     @staticmethod
-    def _snap(comp, form, buf, wkind):
+    def _snap(comp, form, buf, wkind, buf2=None):
         """the caller-visible state of the argument objects (documented attributes; private memo attributes a
         refactoring might add are not part of it)"""
         if form == "formula":
@@ -520,12 +595,15 @@ class Checker(object):
             c = dict(items=tuple(comp))
         else:
             c = {}
-        if wkind == "array":
-            c["buffer"] = (buf.dtype.str, buf.shape, buf.tobytes())
-        elif wkind == "scalar":
-            c["buffer"] = buf
-        else:
-            c["buffer"] = (type(buf).__name__, tuple(type(x).__name__ for x in buf), tuple(buf))
+        for name, b in (("buffer", buf), ("buffer2", buf2)):
+            if b is None:
+                continue
+            if wkind == "array":
+                c[name] = (b.dtype.str, b.shape, b.tobytes())
+            elif wkind == "scalar":
+                c[name] = b
+            else:
+                c[name] = (type(b).__name__, tuple(type(x).__name__ for x in b), tuple(b))
         return c
 
     def history(self, frags, form, wkind, hist, control=False):
@@ -564,11 +642,24 @@ class Checker(object):
             acc.nontrivial += 1
             if acc.states % 40009 == 7:
                 acc.sample(case)
-        buf = None
+        buf = buf2 = None
         for step, cfg in enumerate(hist):
             route, dens, vi, how = cfg
             wls = V[vi] if wkind != "scalar" else V[vi][:1]
             vals = list(wls) if how == "wl" else [rn.energy_of_wavelength(w) for w in wls]
+            given = None
+            if how == "both":
+                # the wavelength= that the documentation says is ignored: the other vector, in a buffer of its own
+                given = list(V[1 - vi] if wkind != "scalar" else V[1 - vi][:1])
+                if wkind == "scalar":
+                    buf2 = given[0]
+                    lines.append("w2 = %r" % (buf2,))
+                elif buf2 is None:
+                    buf2 = np.array(given, dtype=float) if wkind == "array" else list(given)
+                    lines.append("w2 = np.array(%r)" % (given,) if wkind == "array" else "w2 = %r" % (given,))
+                else:
+                    buf2[:] = given
+                    lines.append("w2[:] = %r" % (given,))
             if wkind == "scalar":
                 buf = vals[0]                                   # immutable: the name is bound to the next value
                 lines.append("w = %r" % (buf,))
@@ -580,6 +671,9 @@ class Checker(object):
                 lines.append("w[:] = %r" % (vals,))
             kw = {("wavelength" if how == "wl" else "energy"): buf}
             ksrc = ["%s=w" % ("wavelength" if how == "wl" else "energy")]
+            if how == "both":
+                kw["wavelength"] = buf2
+                ksrc.append("wavelength=w2")
             if dens[0] == "own":
                 if form != "formula":
                     raise MachineryError("own density needs a Formula")
@@ -610,7 +704,7 @@ class Checker(object):
                 call = lambda: meth(wavelength=buf)
                 lines.append("print(comp.neutron.%s(wavelength=w))" % ("scattering" if route == "direct" else "sld"))
             standalone = "\n".join(lines) + "\n"
-            before = self._snap(comp, form, buf, wkind)
+            before = self._snap(comp, form, buf, wkind, buf2)
             acc.evaluations += 1
             acc.transitions += 1
             changed = self.hist_changed(hist[step - 1], cfg) if step else []
@@ -625,14 +719,15 @@ class Checker(object):
                 fail = dict(sig="raises:%s:%s:%s" % (type(e).__name__, route, cls), expected="seven values",
                             observed="%s: %s" % (type(e).__name__, e))
             if fail is None:
-                after = self._snap(comp, form, buf, wkind)
+                after = self._snap(comp, form, buf, wkind, buf2)
                 if after != before:
                     if control:
                         return ("config", cfg)
                     which = [k for k in sorted(before) if before[k] != after.get(k)]
                     label = {"buffer": "%s-%s" % ("wavelength" if how == "wl" else "energy", wkind),
+                             "buffer2": "wavelength-%s" % wkind,
                              "items": "compound-list"}.get(which[0], "formula." + which[0])
-                    show = {"buffer": "w", "items": "comp"}.get(which[0], "comp." + which[0])
+                    show = {"buffer": "w", "buffer2": "w2", "items": "comp"}.get(which[0], "comp." + which[0])
                     acc.violation("argument-altered:%s" % label, dict(case, failing_step=step),
                                   "the caller's object unchanged: %r" % (before[which[0]],), repr(after.get(which[0])),
                                   standalone=standalone + "print(%s)\n" % show,
@@ -640,6 +735,12 @@ class Checker(object):
                     return ("config", cfg)
                 fail = self.judge(got, route, frags, dspec, wls, "scalar" if wkind == "scalar" else "vector", how,
                                   count=False)
+                if fail is not None and how == "both":
+                    # named after the combination only if the same call with energy= alone is right
+                    kw_en = dict((k, v) for k, v in kw.items() if k != "wavelength")
+                    fail = self.refine_combination(fail, got, (lambda: pt.neutron_scattering(comp, **kw_en)), route,
+                                                   frags, dspec, list(wls), given,
+                                                   "scalar" if wkind == "scalar" else "vector", cls)
             if fail is None:
                 if not control:
                     acc.outcome("history step: %s" % tag)
@@ -938,6 +1039,30 @@ def _grids(ck, frags):
     return grid, full, vecs, bool(nodes)
 
 
+def other_values(vals, pool):
+    """Entrywise different partner values for `vals`, taken from the sorted pool of grid points that contains them:
+    the point half the pool further on (cyclic) - for a table-driven atom far away in its table."""
+    n = len(pool)
+    idx = dict((w, i) for i, w in enumerate(pool))
+    out = [pool[(idx[w] + n // 2) % n] for w in vals]
+    if n < 2 or any(a == b for a, b in zip(vals, out)):
+        raise MachineryError("partner wavelengths not entrywise different: %r" % (vals,))
+    return out
+
+
+def both_cases(ck, route, frags, form, dspec, pool, scalars, vectors, same=True):
+    """energy= and wavelength= in ONE call: wavelength= another point of the pool (entrywise) and - `same` - the
+    wavelength of the energy itself; scalars and vectors.  The documentation: the energy counts."""
+    for w in scalars:
+        ck.case(route, frags, form, dspec, ("both", [w], "scalar", other_values([w], pool)))
+        if same:
+            ck.case(route, frags, form, dspec, ("both", [w], "scalar", [w]))
+    for v in vectors:
+        ck.case(route, frags, form, dspec, ("both", v, "vector", other_values(v, pool)))
+        if same:
+            ck.case(route, frags, form, dspec, ("both", v, "vector", list(v)))
+
+
 def do_single(ck, key, thorough):
     """All cases of the one-atom compound `key`."""
     ck.data.clear_cache()
@@ -958,12 +1083,18 @@ def do_single(ck, key, thorough):
                 ck.case("compound", frags, form, dspec, ("default", [rn.ABS_WL], "scalar"))
                 if form == "string":
                     ck.case("compound", frags, form, dspec, ("wl", full, "vector"))
+                    both_cases(ck, "compound", frags, form, dspec, full, [], [full], same=False)
                     continue
                 for w in full:
                     ck.case("compound", frags, form, dspec, ("wl", [w], "scalar"))
                     if form == "atom":
                         ck.case("compound", frags, form, dspec, ("en", [w], "scalar"))
+                if form == "atom":
+                    both_cases(ck, "compound", frags, form, dspec, full, full, vecs)
+                else:
+                    both_cases(ck, "compound", frags, form, dspec, full, [], [full], same=False)
             ck.case("sld", frags, form, ("atom",), ("wl", [4.75], "scalar"))
+            both_cases(ck, "sld", frags, form, ("atom",), full, [full[len(full) // 3]], [full], same=False)
     # explicit densities in every form
     for d in DENSITIES:
         dforms = [("density", d, "list"), ("tag", d, "string"),
@@ -974,20 +1105,27 @@ def do_single(ck, key, thorough):
             dspec = (kind, dv)
             sweep = has_nodes and ((d == 1.0 and (thorough or kind in ("density", "tag")))
                                    or (thorough and kind == "density" and d == 25.0))
+            pool = full if sweep else grid
             if form == "string":
                 # strings are parsed on every call: one scalar, one vector
                 ck.case("compound", frags, form, dspec, ("wl", [1.798], "scalar"))
-                ck.case("compound", frags, form, dspec, ("en", (full if sweep else grid), "vector"))
+                ck.case("compound", frags, form, dspec, ("en", pool, "vector"))
+                both_cases(ck, "compound", frags, form, dspec, pool, [], [pool], same=False)
                 continue
             gset = set(grid)
-            for w in (full if sweep else grid):
+            for w in pool:
                 ck.case("compound", frags, form, dspec, ("wl", [w], "scalar"))
                 if w in gset or thorough:            # table points as energy= go through the vector call
                     ck.case("compound", frags, form, dspec, ("en", [w], "scalar"))
             for v in vecs + ([full] if sweep else []):
                 ck.case("compound", frags, form, dspec, ("wl", v, "vector"))
                 ck.case("compound", frags, form, dspec, ("en", v, "vector"))
+            if kind == "density" or d == 2.33:
+                # energy= together with wavelength=: every point as a scalar, every vector
+                both_cases(ck, "compound", frags, form, dspec, pool, pool, vecs + ([full] if sweep else []),
+                           same=(kind == "density"))
         ck.case("sld", frags, "list", ("density", d), ("en", [10.0], "scalar"))
+        both_cases(ck, "sld", frags, "list", ("density", d), full, [10.0], [full], same=False)
 
 
 def do_compound(ck, frags, thorough):
@@ -1014,6 +1152,17 @@ def do_compound(ck, frags, thorough):
                 ck.case("compound", frags, form, dspec, ("en", v, "vector"))
     ck.case("sld", frags, "list", ("density", 2.33), ("wl", [4.75], "scalar"))
     ck.case("compound", frags, "list", ("density", 1.0), ("default", [rn.ABS_WL], "scalar"))
+    # energy= together with wavelength= (the energy counts): every global point as a scalar, every vector, the whole
+    # grid as one vector, in one density form of each kind; SLD route; density by position
+    both_cases(ck, "compound", frags, "list", ("density", 1.0), full, grid, vecs + ([full] if has_nodes else []),
+               same=thorough)
+    for w in grid[1::2]:
+        ck.case("compound", frags, "list", ("density", 1.0), ("both", [w], "scalar", [w]))
+    ck.case("compound", frags, "list", ("density", 1.0), ("both", vecs[2], "vector", list(vecs[2])))
+    both_cases(ck, "compound", frags, "list", ("natural", 2.33), full, [grid[3]], [vecs[1]], same=False)
+    both_cases(ck, "compound", frags, "string", ("tag", 25.0), full, [grid[0]], [vecs[2]], same=False)
+    both_cases(ck, "compound", frags, "string", ("tagn", 0.07), full, [grid[-1]], [vecs[0]], same=False)
+    both_cases(ck, "sld", frags, "list", ("density", 2.33), full, [4.75], [full if has_nodes else grid], same=False)
 
 
 def do_history(ck, frags, thorough, depth3=False):
@@ -1109,6 +1258,7 @@ def do_nodata(ck, key):
             for frags in ([(1, key), (2, other)], [(2, other), (0.5, key)]):
                 ck.case("compound", frags, form, ("density", 2.33), ("wl", [4.75], "scalar"))
                 ck.case("compound", frags, form, ("density", 2.33), ("en", [4.75], "scalar"))
+                ck.case("compound", frags, form, ("density", 2.33), ("both", [4.75], "scalar", [1.798]))
 
 
 def all_nodata_atoms(data):
@@ -1303,5 +1453,4 @@ def replay(ctx, case, signature=None):
     if case.get("kind") == "history":
         ck.history(frags, case["form"], case["wkind"], case["hist"])
         return
-    how, wls, shape = case["w"]
-    ck.case(case["route"], frags, case["form"], tuple(case["dens"]), (how, wls, shape))
+    ck.case(case["route"], frags, case["form"], tuple(case["dens"]), tuple(case["w"]))
